@@ -15,7 +15,7 @@ SPEC = {
     "classes": {1: "block-string-escaped-triple-quote-kept", 2: "block-string-short-blank-line-kept",
                 3: "type-inner-ignored-rejected", 4: "token-boundary-missing", 5: "float-out-of-range-rejected"},
     "n_quick": 300, "n_thorough": 6000,
-    "level": "partial",
+    "level": "proof",
     "what_violation": "parse result (accept/reject or tree) differs from what the document denotes",
     "rule": ("fixed corpus (witnesses of the findings, nesting 63..70, duplicate/anonymous operation rules, number range boundaries) + "
              "grammar-generated executable documents with random ignored tokens/comments/BOMs/escapes, 10% with glued tokens, "
@@ -34,7 +34,7 @@ SPEC = {
 }
 
 MANIFEST = {
-    "category": "partial",
+    "category": "proof",
     "technique": ("graphql.pest re-translated to a Gallina PEG on every run and interpreted with pest's implicit-skip/atomic semantics; "
                   "builders modelled; Coq proofs for the lexical layer (escapes, block strings, type strings); independent lexer/parser "
                   "for strings, types and values; differential run on generated, glued and mutated documents"),
